@@ -206,13 +206,6 @@ def toSpec : Entry.Op → SetOp
   | .setFlags f => .setFlags f
   | .setUnused => .setUnused
 
-/-- The spec's run over a history (`none` as soon as a call must panic). -/
-def specRun (s : Stored) : List SetOp → Option Stored
-  | [] => some s
-  | op :: rest => match specStep s op with
-    | some s' => specRun s' rest
-    | none => none
-
 /-- Being a stored pair of the domain. -/
 def StoredOk (s : Stored) : Prop := validAddr s.addr = true ∧ inFlagDom s.flags = true
 
